@@ -306,4 +306,42 @@ def eqAlg (env : Env) : Nat → Gamma → Ty → Ty → Res
       | _, .unknown => .panic "subtype.rs:unreachable(Unknown)"
       | _, _ => .no
 
+/-! ## `TypeEnv::merge_type` (used by the text-level upgrade check) -/
+
+mutual
+def substTy (tau : List (String × String)) : Ty → Ty
+  | .var x => match tau.lookup x with | some y => .var y | none => .var x
+  | .opt t => .opt (substTy tau t)
+  | .vec t => .vec (substTy tau t)
+  | .record fs => .record (substFields tau fs)
+  | .variant fs => .variant (substFields tau fs)
+  | .func a r m => .func (substTys tau a) (substTys tau r) m
+  | .service ms => .service (substMeths tau ms)
+  | .cls a t => .cls (substTys tau a) (substTy tau t)
+  | t => t
+def substFields (tau : List (String × String)) : Fields → Fields
+  | .nil => .nil
+  | .cons l t r => .cons l (substTy tau t) (substFields tau r)
+def substTys (tau : List (String × String)) : Tys → Tys
+  | .nil => .nil
+  | .cons t r => .cons (substTy tau t) (substTys tau r)
+def substMeths (tau : List (String × String)) : Meths → Meths
+  | .nil => .nil
+  | .cons n t r => .cons n (substTy tau t) (substMeths tau r)
+end
+
+/-- `self.merge_type(env2, ty)`: names of `env2` already bound in `self` are renamed `k/1` everywhere in
+`env2` and in `ty` -/
+def mergeType (env1 env2 : Env) (ty : Ty) : Env × Ty :=
+  let tau := (env2.filter fun p => (env1.find p.1).isSome).map fun p => (p.1, p.1 ++ "/1")
+  let moved := env2.map fun p =>
+    ((match tau.lookup p.1 with | some k => k | none => p.1), substTy tau p.2)
+  (env1 ++ moved, substTy tau ty)
+
+/-- independent reading of "compare the new interface with the old one": rename *every* name of the
+old environment apart (suffix `'`), take the disjoint union -/
+def disjointUnion (env1 env2 : Env) (ty : Ty) : Env × Ty :=
+  let tau := env2.map fun p => (p.1, p.1 ++ "'")
+  (env1.map (fun p => (p.1, p.2)) ++ env2.map (fun p => (p.1 ++ "'", substTy tau p.2)), substTy tau ty)
+
 end Candid.Sub
